@@ -285,6 +285,13 @@ var scriptArchetypes = map[string]func(r *rand.Rand) PodScript{
 	"lateterm": func(r *rand.Rand) PodScript {
 		return PodScript{ScheduleMs: int64(50 + r.Intn(500)), RunMs: int64(100 + r.Intn(1500)), FinishMs: int64(20000 + r.Intn(40000)), Outcome: "succeed", TermMs: int64(10000 + r.Intn(50000))}
 	},
+	"deadpending": func(r *rand.Rand) PodScript {
+		return PodScript{ScheduleMs: int64(50 + r.Intn(500)), RunMs: -1, TermMs: -1, Outcome: "succeed"}
+	},
+	"racefinish": func(r *rand.Rand) PodScript {
+		// slow to start, slow to react to deletion, but completes by itself
+		return PodScript{ScheduleMs: int64(50 + r.Intn(500)), RunMs: int64(6000 + r.Intn(30000)), FinishMs: int64(500 + r.Intn(3000)), Outcome: "succeed", TermMs: int64(60000 + r.Intn(60000))}
+	},
 	"evict": func(r *rand.Rand) PodScript {
 		return PodScript{ScheduleMs: int64(50 + r.Intn(500)), RunMs: int64(100 + r.Intn(1500)), FinishMs: int64(10000 + r.Intn(20000)), Outcome: "succeed", TermMs: 500, EvictMs: int64(1500 + r.Intn(6000))}
 	},
@@ -417,7 +424,7 @@ func genFull(seed int64, property string) *Plan {
 	case "C08", "C10":
 		rich = true
 		nJC, nAdhoc, nIndep = 1, r.Intn(2), 2+r.Intn(4)
-		weights = map[string]int{"ok": 8, "fail": 8, "oom": 2, "deadline": 1, "slow": 2, "unschedulable": 1, "evict": 2, "flap": 2, "stuckpending": 1}
+		weights = map[string]int{"ok": 8, "fail": 8, "oom": 2, "deadline": 1, "slow": 2, "unschedulable": 1, "evict": 2, "flap": 2, "stuckpending": 1, "racefinish": 3}
 		kills = r.Intn(4) == 0
 		faulty = r.Intn(4) == 0
 	case "C09":
@@ -435,8 +442,9 @@ func genFull(seed int64, property string) *Plan {
 	case "C12":
 		rich = true
 		nJC, nAdhoc, nIndep = 1, r.Intn(2), 2+r.Intn(3)
-		weights = map[string]int{"ok": 4, "slow": 5, "hang": 5, "deadnode": 4, "lateterm": 3, "unschedulable": 4, "stuckpending": 4, "fail": 2}
+		weights = map[string]int{"ok": 4, "slow": 5, "hang": 5, "deadnode": 4, "lateterm": 3, "unschedulable": 4, "stuckpending": 4, "fail": 2, "deadpending": 3, "racefinish": 2}
 		kills = true
+		faulty = r.Intn(3) == 0
 	case "C13":
 		rich = r.Intn(2) == 0
 		nJC, nAdhoc, nIndep = 1, 1+r.Intn(2), 2+r.Intn(3)
@@ -613,7 +621,7 @@ func genFull(seed int64, property string) *Plan {
 		// foreign pods occupying task names
 		if r.Intn(2) == 0 && len(jobNames) > 0 {
 			name := jobNames[r.Intn(len(jobNames))]
-			p.ForeignPods = append(p.ForeignPods, ForeignPod{NS: "default", Name: name + "-gezdqo-0", AtMs: 0, OwnerJob: []string{"", "other"}[r.Intn(2)]})
+			p.ForeignPods = append(p.ForeignPods, ForeignPod{NS: "default", Name: name + "-gezdqo-0", AtMs: 0, OwnerJob: []string{"", "other", name}[r.Intn(3)]})
 		}
 	}
 	if property == "C12" || property == "C11" && r.Intn(3) == 0 {
